@@ -333,6 +333,51 @@ pub fn check_aggs(w: &TimeWindow, a: &AggSet, step: usize, base: u64, r: &mut Ru
         ("TimeWindow::min(second call)", Ok(w.min(FIELD)), f.min, 0.0),
         ("TimeWindow::max(second call)", Ok(w.max(FIELD)), f.max, 0.0),
     ];
+    // the window's other read views must describe the same events
+    {
+        let all: Vec<u64> = evs.iter().map(|e| e.metadata.sequence).collect();
+        let in_range: Vec<u64> = w.events_in_range(w.start_time, w.end_time).iter().map(|e| e.metadata.sequence).collect();
+        let lo = evs.iter().map(|e| e.metadata.timestamp).min();
+        let hi = evs.iter().map(|e| e.metadata.timestamp).max();
+        // (a sliding window's bounds move with the newest event; ask for the span the events really cover)
+        let spanned: Vec<u64> = match (lo, hi) {
+            (Some(l), Some(h)) => w.events_in_range(l, h + 1).iter().map(|e| e.metadata.sequence).collect(),
+            _ => Vec::new(),
+        };
+        let half: Vec<u64> = match (lo, hi) {
+            (Some(l), Some(h)) => {
+                let mid = l + (h - l) / 2;
+                let want: Vec<u64> = evs.iter().filter(|e| e.metadata.timestamp >= l && e.metadata.timestamp < mid).map(|e| e.metadata.sequence).collect();
+                let got: Vec<u64> = w.events_in_range(l, mid).iter().map(|e| e.metadata.sequence).collect();
+                if got != want {
+                    r.flag(step, "aggregate", "TimeWindow::events_in_range", || format!("step {}: events_in_range({}, {}) = {:?}, the events with a timestamp in that range are {:?}", step, l.wrapping_sub(base), mid.wrapping_sub(base), got, want));
+                }
+                got
+            }
+            _ => Vec::new(),
+        };
+        let _ = half;
+        let by_type: Vec<u64> = w.events_by_type(EVENT_TYPE).iter().map(|e| e.metadata.sequence).collect();
+        let other_type = w.events_by_type("no-such-type").len();
+        r.obs.aggregate_comparisons += 5;
+        if spanned != all || by_type != all || other_type != 0 || w.latest_timestamp() != hi || (in_range.len() > all.len()) {
+            r.flag(step, "aggregate", "TimeWindow::read-views-disagree-with-events()", || {
+                format!(
+                    "step {}: window [{}, {}): events() = {:?}; events_in_range(min ts, max ts + 1) = {:?}; events_by_type({:?}) = {:?}; events_by_type(other) has {}; latest_timestamp() = {:?}, largest timestamp in events() = {:?}",
+                    step,
+                    w.start_time.wrapping_sub(base),
+                    w.end_time.wrapping_sub(base),
+                    all,
+                    spanned,
+                    EVENT_TYPE,
+                    by_type,
+                    other_type,
+                    w.latest_timestamp().map(|t| t.wrapping_sub(base)),
+                    hi.map(|t| t.wrapping_sub(base))
+                )
+            });
+        }
+    }
     for (api, got, want, tol) in results.iter() {
         r.obs.aggregate_comparisons += 1;
         let ok = match got {
@@ -709,6 +754,35 @@ pub fn run_wm(d: u64, cap: usize, max_windows: usize, base: u64, evs: &[Ev], fro
         // aggregates of the window that changed in this step
         if let Some(w) = m.active_windows().iter().find(|w| w.start_time == aligned) {
             check_aggs(w, &aggs, i, base, r);
+        }
+        // the manager's summary views against its own window list
+        {
+            let ws = m.active_windows();
+            let total: usize = ws.iter().map(|w| w.events().len()).sum();
+            let stats = m.get_statistics();
+            let sum_all: f64 = ws.iter().map(|w| ref_fold(w.events().iter()).sum).sum();
+            let across = m.aggregate_across_windows(|w| w.sum(FIELD));
+            let latest = m.latest_window().map(|w| w.start_time);
+            let with_type = m.windows_with_event_type(EVENT_TYPE).len();
+            let non_empty = ws.iter().filter(|w| !w.events().is_empty()).count();
+            r.obs.aggregate_comparisons += 6;
+            let tol = 1e-9 * (1.0 + sum_all.abs());
+            if m.total_event_count() != total
+                || stats.total_events != total
+                || stats.total_windows != ws.len()
+                || stats.oldest_window_start != ws.first().map(|w| w.start_time)
+                || stats.newest_window_start != ws.last().map(|w| w.start_time)
+                || latest != ws.last().map(|w| w.start_time)
+                || with_type != non_empty
+                || !((across - sum_all).abs() <= tol || (across.is_nan() && sum_all.is_nan()))
+            {
+                r.flag(i, "aggregate", "WindowManager::summary-views-disagree-with-active_windows()", || {
+                    format!(
+                        "step {}: active_windows() hold {} events in {} windows ({} non-empty, sum of the field {}); total_event_count() = {}, get_statistics() = {:?}, latest_window() starts at {:?}, windows_with_event_type = {}, aggregate_across_windows(sum) = {}",
+                        i, total, ws.len(), non_empty, sum_all, m.total_event_count(), stats, latest.map(|t| t.wrapping_sub(base)), with_type, across
+                    )
+                });
+            }
         }
     }
 }
